@@ -18,7 +18,13 @@ def gen_tree(r, xml):
     def fill(el, depth):
         for _ in range(r.choice([0, 1, 2, 3, 4])):
             k = r.random()
-            if k < 0.3:
+            if k < 0.06 and not xml:
+                # text that html.parser / lxml store in NavigableString subclasses (inside script, style, template, rt, rp):
+                # it is content like any other text
+                kind = r.choice([bs4.element.Script, bs4.element.Stylesheet, bs4.element.TemplateString,
+                                 bs4.element.RubyTextString, bs4.element.RubyParenthesisString])
+                el.append(kind(r.choice(['a', 'b', 'ab', ' ', 'a b'])))
+            elif k < 0.3:
                 el.append(bs4.NavigableString(r.choice(['a', 'b', ' ', 'ab', 'ba', '\n', '', 'a b', 'b\n', 'a"', '"a"b', "b'", 'a\\'])))
             elif k < 0.4:
                 el.append(bs4.Comment(r.choice(['a', 'ab'])))
